@@ -11,7 +11,28 @@ from harness import core, sexp
 
 SERVER_KEY = b'server-secret-key-0123'
 OTHER_KEY = b'attacker-or-other-key!'
-VALUES = [1, 0, -5, 3.5, True, None, '', 'x', 'é中', [1, [2, {'a': None}]], {'k': 'v', 'n': [1, 2]}, 'a=b&c?d', '"q"', 10 ** 20]
+_DEFAULT_KEYS = (SERVER_KEY, OTHER_KEY)
+NONASCII_SECRET = u'\u043e\u0447\u0435\u043d\u044c-\u0434\u043b\u0438\u043d\u043d\u044b\u0439-\u043a\u043b\u044e\u0447'
+
+
+def set_keys(case):
+    """the form of the server's secret is a configuration dimension: bytes, ASCII text, or a non-ASCII passphrase (its key
+    bytes are its UTF-8 encoding); for the latter the 'other key' of the re-signing tamper step is the passphrase with
+    every non-ASCII character collapsed to '?'"""
+    global SERVER_KEY, OTHER_KEY
+    if case.get('secret') == 'nonascii':
+        SERVER_KEY = NONASCII_SECRET.encode('utf8')
+        OTHER_KEY = NONASCII_SECRET.encode('ascii', 'replace')
+    else:
+        SERVER_KEY, OTHER_KEY = _DEFAULT_KEYS
+
+
+def secret_arg(case):
+    form = case.get('secret')
+    return NONASCII_SECRET if form == 'nonascii' else (_DEFAULT_KEYS[0].decode('ascii') if form == 'text' else _DEFAULT_KEYS[0])
+VALUES = [1, 0, -5, 3.5, True, None, '', 'x', 'é中', [1, [2, {'a': None}]], {'k': 'v', 'n': [1, 2]}, 'a=b&c?d', '"q"', 10 ** 20,
+          # texts whose JSON contains '>', '?' or '~' at every offset modulo 3 (base64 alphabets differ exactly there)
+          'Saved. What next?', '/search?q=clastic&page=2', '<b>Done</b> -> continue', '?', 'a?', 'ab?', '>>>', '~x~y~z~', 'x>y?z~w']
 KEYS = ['a', 'b', 'user', 'k e y', 'é', '_expires_not', 'x=y']
 TAMPER = ['none', 'none', 'none', 'flip_tag', 'flip_payload', 'truncate', 'extend', 'swap_sig', 'swap_payload', 'resign_other',
           'random', 'nonascii', 'nonascii_key', 'bad_b64_tag', 'no_sep', 'no_eq', 'replay_old', 'drop', 'quotes', 'bad_value', 'junk_prefix']
@@ -95,7 +116,7 @@ def build(case):
                 cookie.set_expires(int(state['now'] + op[1]))       # the public JSONCookie API (examples/basic.py logout idiom)
         return Response(json.dumps(given, sort_keys=True), mimetype='application/json')
     exec('def ep(%s):\n    return _body(%s)\n' % (arg, arg), {'_body': body}, ns)
-    mw = SignedCookieMiddleware(arg_name=arg, cookie_name=case['cookie_name'], secret_key=SERVER_KEY, expiry=expiry)
+    mw = SignedCookieMiddleware(arg_name=arg, cookie_name=case['cookie_name'], secret_key=secret_arg(case), expiry=expiry)
     return Application([('/', ns['ep'])], middlewares=[mw]), state, mw.cookie_name
 
 
@@ -155,6 +176,7 @@ def impl(case):
     from harness import wsgi
     import secure_cookie.cookie as sc
     import clastic.middleware.cookie as cm
+    set_keys(case)
     app, state, cname = build(case)
     rng = random.Random(case['seed'])
     clock = {'now': 1000000.0}
@@ -283,7 +305,7 @@ def gen_case(rng, tier):
                 ops.append(['clear'])
         adv = rng.choice([0, 1, 1, 10, 49, 50, 51, 99, 100, 101, 500])
         steps.append({'ops': ops, 'advance': adv, 'tamper': rng.choice(TAMPER)})
-    return {'expiry': ex, 'steps': steps, 'seed': rng.randrange(10 ** 6), 'arg_name': rng.choice(['cookie', 'session', 'sess_1']),
+    return {'secret': rng.choice(['bytes', 'bytes', 'text', 'nonascii']), 'expiry': ex, 'steps': steps, 'seed': rng.randrange(10 ** 6), 'arg_name': rng.choice(['cookie', 'session', 'sess_1']),
             'cookie_name': rng.choice([None, 'sid', 'my-cookie'])}
 
 
@@ -299,7 +321,7 @@ def run(rep, b, tier, seed, only_cases=None):
     rep.rule = ('cookielab: histories of %s requests by one client: per request 0-2 operations {set key to a JSON value from %d '
                 '(nested, unicode, numbers, empty), delete, clear, set_expires(now + {-500,-1,30,60,1000})}, a clock advance around the expiry (patched clocks in '
                 'secure_cookie and the middleware), and a tampering step from %d kinds applied to the cookie the client sends '
-                'back; expiry session / never / numeric; custom cookie and argument names; raw Cookie headers. Every request: '
+                'back; expiry session / never / numeric; the secret given as bytes, ASCII text or a non-ASCII passphrase (re-signing then uses its question-mark-collapsed form); custom cookie and argument names; raw Cookie headers. Every request: '
                 'status, the cookie contents the endpoint saw, the Set-Cookie value; compared with Model/Cookie.mw_request and '
                 'with an independent re-statement (HMAC-SHA1 recomputed in the harness). non-trivial = histories with a '
                 'tampering step or an expiry.' % ('3-10' if tier == 'quick' else '6-30', len(VALUES), len(set(TAMPER))))
@@ -309,6 +331,7 @@ def run(rep, b, tier, seed, only_cases=None):
     obs = core.run_impl_workers('c16', cases)[0]
     lines, index = [], []
     for i, (c, o) in enumerate(zip(cases, obs)):
+        set_keys(c)
         if isinstance(o, dict) and '_harness_exception' in o:
             rep.broken('harness exception on implementation side', {'case': c, 'obs': o})
             continue
@@ -330,6 +353,7 @@ def run(rep, b, tier, seed, only_cases=None):
     # whole histories: the jar is carried by the model (run_history); only tampered cookies are fed in
     hlines, hindex = [], []
     for i, (c, o) in enumerate(zip(cases, obs)):
+        set_keys(c)
         if isinstance(o, dict) and '_harness_exception' in o:
             continue
         hist = []
@@ -383,6 +407,7 @@ def run(rep, b, tier, seed, only_cases=None):
         for (i, k), line in zip(index, model_out):
             t = sexp.loads(line)
             c, r = cases[i], obs[i][k]
+            set_keys(c)
             try:
                 given = dict((kv[0].decode('utf8'), json.loads(kv[1].decode('utf8'))) for kv in t[0])
                 stored = None if t[1] == b'None' else dict((kv[0].decode('utf8'), json.loads(kv[1].decode('utf8'))) for kv in t[1][0])
@@ -406,6 +431,7 @@ def run(rep, b, tier, seed, only_cases=None):
             else:
                 rep.traces += 1
     for c, o in zip(cases, obs):
+        set_keys(c)
         if isinstance(o, dict) and '_harness_exception' in o:
             continue
         v = oracle(c, o) or history_oracle(c, o)
